@@ -15,7 +15,6 @@ EXTENDS TraceKit, Smoothers, IluNumeric
 VARIABLES l, bad
 
 Tol     == -12000        \* 1e-12
-TolCheb == -10500        \* the Chebyshev recurrence (degree <= 6, lo/hi down to 1/40) loses a little more
 FixTol  == 2             \* units of 2^-sh
 
 N(r)  == r.A.n
@@ -25,7 +24,7 @@ Xq(r) == RVecOf(r.x)
 Close(qs, v, r) == VecCloseFix(qs, v, N(r), r.sh, FixTol)
 Rat(r) == r.rat /\ ~r.big
 
-OTol(r) == IF r.kind = "cheb" THEN TolCheb ELSE Tol
+OTol(r) == Tol          \* worst value on the unchanged tree over 30 seeds x {1, 4} threads: -14448 (3.6e-15)
 Common(r) ==
     << <<"finite", r.finite>>,
        <<"fixed-point-bitwise", (r.fpx => r.fixbits = 0) /\ r.e_fix <= Tol>>,
